@@ -189,20 +189,14 @@ impl LuaEngine {
         db_index: usize,
         is_pcall: bool,
     ) -> LuaResult<LuaValue> {
-        // Parse command arguments
-        let mut args = Vec::new();
+        // Parse command arguments (Lua strings are byte strings: they are passed
+        // on unchanged, whatever bytes they contain)
+        let mut args: Vec<Vec<u8>> = Vec::new();
         for value in cmd {
             match value {
-                LuaValue::String(s) => {
-                    match s.to_str() {
-                        Ok(string_val) => args.push(string_val.to_string()),
-                        Err(_) => {
-                            return Self::handle_command_error_with_context(lua_ctx, "Invalid UTF-8 in command argument".to_string(), is_pcall);
-                        }
-                    }
-                }
-                LuaValue::Integer(i) => args.push(i.to_string()),
-                LuaValue::Number(n) => args.push(n.to_string()),
+                LuaValue::String(s) => args.push(s.as_bytes().to_vec()),
+                LuaValue::Integer(i) => args.push(i.to_string().into_bytes()),
+                LuaValue::Number(n) => args.push(n.to_string().into_bytes()),
                 _ => {
                     return Self::handle_command_error_with_context(lua_ctx, "Invalid argument type".to_string(), is_pcall);
                 }
@@ -213,7 +207,7 @@ impl LuaEngine {
             return Self::handle_command_error_with_context(lua_ctx, "No command specified".to_string(), is_pcall);
         }
         
-        let cmd_name = args[0].to_uppercase();
+        let cmd_name = String::from_utf8_lossy(&args[0]).to_uppercase();
         
         // Block commands that shouldn't be available in Lua scripts
         match cmd_name.as_str() {
@@ -269,7 +263,7 @@ impl LuaEngine {
             _ => {
                 // Route through unified command processor
                 let lua_adapter = LuaCommandAdapter::new(storage.clone());
-                match lua_adapter.execute_lua_command(args, db_index) {
+                match lua_adapter.execute_lua_command_bytes(args, db_index) {
                     Ok(resp_frame) => Self::resp_frame_to_lua_value(lua_ctx, resp_frame, is_pcall),
                     Err(e) => Self::handle_command_error_with_context(lua_ctx, e.to_string(), is_pcall),
                 }
@@ -288,8 +282,8 @@ impl LuaEngine {
                 }
             }
             RespFrame::BulkString(Some(bytes)) => {
-                let string_val = String::from_utf8_lossy(&bytes).into_owned();
-                match lua_ctx.create_string(&string_val) {
+                // Byte-for-byte: a Lua string holds arbitrary bytes
+                match lua_ctx.create_string(bytes.as_slice()) {
                     Ok(lua_string) => Ok(LuaValue::String(lua_string)),
                     Err(e) => Self::handle_command_error_with_context(lua_ctx, e.to_string(), is_pcall),
                 }
@@ -319,7 +313,7 @@ impl LuaEngine {
     }
     
     /// Handle command errors with proper Redis semantics
-    fn handle_command_error_with_context(_lua_ctx: &Lua, error_msg: String, is_pcall: bool) -> LuaResult<LuaValue> {
+    fn handle_command_error_with_context(lua_ctx: &Lua, error_msg: String, is_pcall: bool) -> LuaResult<LuaValue> {
         let formatted_error = if error_msg.starts_with("ERR ") {
             error_msg
         } else {
@@ -327,8 +321,11 @@ impl LuaEngine {
         };
         
         if is_pcall {
-            // redis.pcall: Return nil, script continues
-            Ok(LuaValue::Nil)
+            // redis.pcall: the error is returned as a table {err = message} and
+            // the script continues (returning that table yields an error reply)
+            let table = lua_ctx.create_table()?;
+            table.set("err", formatted_error)?;
+            Ok(LuaValue::Table(table))
         } else {
             // redis.call: Abort script execution immediately
             Err(mlua::Error::RuntimeError(format!("REDIS_CALL_ABORT:{}", formatted_error)))
@@ -340,14 +337,14 @@ impl LuaEngine {
         
         let keys_table = lua.create_table().map_err(|e| FerrousError::LuaError(e.to_string()))?;
         for (i, key) in keys.iter().enumerate() {
-            let key_str = String::from_utf8_lossy(key).into_owned();
+            let key_str = lua.create_string(key.as_slice()).map_err(|e| FerrousError::LuaError(e.to_string()))?;
             keys_table.set(i + 1, key_str).map_err(|e| FerrousError::LuaError(e.to_string()))?;
         }
         globals.set("KEYS", keys_table).map_err(|e| FerrousError::LuaError(e.to_string()))?;
         
         let argv_table = lua.create_table().map_err(|e| FerrousError::LuaError(e.to_string()))?;
         for (i, arg) in args.iter().enumerate() {
-            let arg_str = String::from_utf8_lossy(arg).into_owned();
+            let arg_str = lua.create_string(arg.as_slice()).map_err(|e| FerrousError::LuaError(e.to_string()))?;
             argv_table.set(i + 1, arg_str).map_err(|e| FerrousError::LuaError(e.to_string()))?;
         }
         globals.set("ARGV", argv_table).map_err(|e| FerrousError::LuaError(e.to_string()))?;
@@ -372,18 +369,23 @@ impl LuaEngine {
                 } else if n.is_infinite() {
                     let inf_str = if n.is_sign_positive() { "inf" } else { "-inf" };
                     RespFrame::BulkString(Some(Arc::new(inf_str.as_bytes().to_vec())))
-                } else if n.fract() == 0.0 && n >= i64::MIN as f64 && n <= i64::MAX as f64 {
-                    RespFrame::Integer(n as i64)
                 } else {
-                    let formatted = format!("{:.17}", n);
-                    let trimmed = formatted.trim_end_matches('0').trim_end_matches('.');
-                    RespFrame::BulkString(Some(Arc::new(trimmed.as_bytes().to_vec())))
+                    // A Lua number becomes an integer reply, truncated toward zero
+                    RespFrame::Integer(n as i64)
                 }
             }
             LuaValue::String(s) => {
                 RespFrame::BulkString(Some(Arc::new(s.as_bytes().to_vec())))
             }
             LuaValue::Table(table) => {
+                // {err = message} is an error reply, {ok = message} a status reply
+                if let Ok(LuaValue::String(msg)) = table.raw_get::<LuaValue>("err") {
+                    return RespFrame::Error(Arc::new(msg.as_bytes().to_vec()));
+                }
+                if let Ok(LuaValue::String(msg)) = table.raw_get::<LuaValue>("ok") {
+                    return RespFrame::SimpleString(Arc::new(msg.as_bytes().to_vec()));
+                }
+                
                 // Convert Lua table to Redis array
                 let mut items = Vec::new();
                 for i in 1.. {
@@ -394,11 +396,8 @@ impl LuaEngine {
                     }
                 }
                 
-                if items.is_empty() {
-                    RespFrame::BulkString(None)
-                } else {
-                    RespFrame::Array(Some(items))
-                }
+                // An empty table is an empty array
+                RespFrame::Array(Some(items))
             }
             _ => RespFrame::BulkString(None),
         }
